@@ -171,14 +171,15 @@ type loopCtx struct {
 }
 
 type Walker struct {
-	A      *Analysis
-	Fn     *FuncInfo
-	info   *types.Info
-	record bool
-	exits  []*State
-	loops  []*loopCtx
-	defers []*ast.FuncLit
-	depth  int
+	storeBase *Term
+	A         *Analysis
+	Fn        *FuncInfo
+	info      *types.Info
+	record    bool
+	exits     []*State
+	loops     []*loopCtx
+	defers    []*ast.FuncLit
+	depth     int
 	// inline return collection (for predicate inlining)
 	inl      *inlineCtx
 	budget   int
@@ -934,9 +935,11 @@ func (w *Walker) store(lh ast.Expr, val *Term, st *State, at ast.Node) {
 			w.write(base.Name, kind, idx, val, st, at)
 			return
 		}
+		w.storeBase = base // which part of the location is stored into (a bucket of the message cache, say)
 		for _, l := range base.Reads {
 			w.write(l, KillAny, idx, val, st, at)
 		}
+		w.storeBase = nil
 	case *ast.StarExpr:
 		rs := w.eval(x.X, st)
 		if len(rs) > 0 {
@@ -1058,7 +1061,7 @@ func (w *Walker) write(loc string, kind int, idx, val *Term, st *State, at ast.N
 		} else {
 			site.Store |= kind
 		}
-		w.A.snap(site, st, nil, nil, val, idx)
+		w.A.snap(site, st, w.storeBase, nil, val, idx)
 	}
 	st.logEv("write:" + loc)
 	applyKill(st, loc, kind, idx)
@@ -1082,6 +1085,29 @@ func (w *Walker) write(loc string, kind int, idx, val *Term, st *State, at ast.N
 	}
 	if idx != nil && (kind == KillNil || kind == KillNilResp) {
 		st.F.add(Lit{mkAtom("nn", mkTerm(KIndex, "", mkTerm(KField, loc), idx), nil), false})
+	}
+	// a struct-valued field assigned a literal as a whole ("t.e = epoch{height: h, view: v}"): each of its fields is
+	// written with its component (facts reading the struct were dropped by the write above)
+	if idx == nil && val != nil && val.ST != nil && strings.Count(loc, ".") < 3 {
+		for i := 0; i < val.ST.NumFields(); i++ {
+			sf := val.ST.Field(i)
+			cv := zeroTerm(sf.Type())
+			switch {
+			case len(val.Fields) == len(val.Args) && len(val.Args) > 0:
+				for j, fnm := range val.Fields {
+					if fnm == sf.Name() {
+						cv = val.Args[j]
+					}
+				}
+			case len(val.Args) == val.ST.NumFields() && len(val.Fields) == 0:
+				cv = val.Args[i]
+			}
+			sub := loc + "." + sf.Name()
+			w.write(sub, KillAny, nil, cv, st, at)
+			ft := mkTerm(KField, sub)
+			ft.Unsigned = isUnsigned(sf.Type())
+			w.afterScalarWrite(ft, cv, st)
+		}
 	}
 }
 
@@ -1802,6 +1828,9 @@ func (w *Walker) eval(e ast.Expr, st *State) []evalRes {
 			t.Args = elts
 			if len(names) == len(elts) {
 				t.Fields = names
+			}
+			if stt, isStruct := w.info.TypeOf(x).Underlying().(*types.Struct); isStruct && len(cur) == 1 && len(elts) == len(x.Elts) && (len(names) == len(elts) || len(elts) == stt.NumFields() || len(elts) == 0) {
+				t.ST = stt
 			}
 			out = append(out, evalRes{s, t})
 		}
